@@ -17,7 +17,14 @@
 //  3. for every history, every FS call failing once with EIO (without effect / after a partial write):
 //     API results, live view, crash images from the fault onward, and that later operations work;
 //  4. the same from a live base state with 255 prune records, so that the 256th (watermark write,
-//     rotation, obsolete-file removal) happens inside the enumerated suffix.
+//     rotation, obsolete-file removal) happens inside the enumerated suffix;
+//  5. heights spanning several log files next to the obsolete-file removal: every "layout" base (each of
+//     2 (quick) / 3 (thorough) live heights has a flushed entry in any subset of three consecutive log files;
+//     each of the two file boundaries made by close+reopen or by an in-session cleanup rotation; then 255
+//     prune records) x every history of length <= 2 (quick) / 3 (thorough, 2-height layouts) with the
+//     whole-op crash images of its last call. Counters report how many histories remove a log file while a
+//     height is live, and how many do so right after pruning a multi-file height that shared a file with a
+//     live one (vacuity guard: both must be > 0).
 //
 // Oracle (the property statement): after recovery the log holds, for every unpruned height, exactly
 // the entries of the batches whose Flush returned nil, in order — or that plus the complete batch in
@@ -290,7 +297,7 @@ func addUniq(set []string, x string) []string {
 type run struct {
 	c    *checker
 	hist []sym
-	hoff uint64 // height offset of the alphabet (0, or 299 on the 255-prune base)
+	hoff uint64 // height offset of the alphabet (0, 299 on the 255-prune base, 999 on a layout base)
 	base baseKind
 	fs   *crashfs.FS
 	root string
@@ -305,6 +312,25 @@ type run struct {
 	fmode         crashfs.FaultMode
 	broken        bool  // a violation made the rest of the run meaningless
 	fillRemaining int64 // bytes left in the first 32 KiB block after a block-fill base
+	// Observed placement of the flushed batches (fault-free runs only): for every live height the set of
+	// log files its flushed entries were written to, read off the FS op log. Used for vacuity counters of the
+	// multi-file pass only, never by the oracle.
+	filesOf map[uint64]map[string]bool
+	place   placement
+	// quiet: set while a layout base issues its prune records (fault-free, heights without entries): the rows
+	// of these calls are never crash-checked, so their model contents are not rendered, and the live view is
+	// compared with the model after the last record of each block instead of after every one.
+	quiet bool
+}
+
+// placement summarises what a run reached with respect to heights spanning several log files.
+type placement struct {
+	maxFilesOfLiveHeight int  // most log files a live height was spread over at any time
+	removedLogs          int  // log files removed by history calls
+	removedWithLive      bool // a history call removed >= 1 log file while a live height remained
+	// a history call removed >= 1 log file in the flush that pruned a height spread over >= 2 files, one of
+	// which also held flushed entries of a height that stays live
+	removedSharedMulti bool
 }
 
 func (r *run) ctx() map[string]any {
@@ -346,9 +372,11 @@ func (r *run) faultName() string {
 func (r *run) call(name string, step int, f func() error, decide func(err error, w *row)) {
 	w := row{name: name, step: step, opStart: r.fs.NumOps(), callStart: r.fs.Calls()}
 	w.pruned = r.minPruned()
-	for _, m := range r.ms {
-		w.before = addUniq(w.before, join(m.content()))
-		w.alt = addUniq(w.alt, join(m.ifCommitted()))
+	if !r.quiet {
+		for _, m := range r.ms {
+			w.before = addUniq(w.before, join(m.content()))
+			w.alt = addUniq(w.alt, join(m.ifCommitted()))
+		}
 	}
 	r.fs.SetTag(len(r.rows))
 	var err error
@@ -362,8 +390,10 @@ func (r *run) call(name string, step int, f func() error, decide func(err error,
 		w.err = err.Error()
 	}
 	decide(err, &w)
-	for _, m := range r.ms {
-		w.after = addUniq(w.after, join(m.content()))
+	if !r.quiet {
+		for _, m := range r.ms {
+			w.after = addUniq(w.after, join(m.content()))
+		}
 	}
 	w.prunedAfter = r.minPruned()
 	r.rows = append(r.rows, w)
@@ -519,10 +549,13 @@ func (r *run) doFlush(step int) {
 			r.settle("flush", err, w, true)
 			return
 		}
+		r.notePlacement(w)
 		for _, m := range r.ms {
 			m.commit()
 		}
-		r.checkLive("flush", w)
+		if !r.quiet {
+			r.checkLive("flush", w)
+		}
 	})
 }
 
@@ -532,6 +565,7 @@ func (r *run) doClose(step int) {
 			r.settle("close", err, w, false)
 			return
 		}
+		r.notePlacement(w)
 		for _, m := range r.ms {
 			m.commit()
 		}
@@ -589,6 +623,214 @@ func (r *run) runBase() {
 	}
 }
 
+// notePlacement is called when a Flush/Close returned nil, before the model commits the pending batch.
+// It reads off the FS op log which log file the batch was written to and which log files the call
+// removed, and keeps the per-height file sets (fault-free runs only).
+func (r *run) notePlacement(w *row) {
+	if r.fault >= 0 || len(r.ms) != 1 {
+		return
+	}
+	m := r.ms[0]
+	if !m.hasPending() {
+		return
+	}
+	if r.filesOf == nil {
+		r.filesOf = map[uint64]map[string]bool{}
+	}
+	batchFile, removed := "", 0
+	for _, o := range r.fs.Ops()[w.opStart:w.opEnd] {
+		switch {
+		case o.Kind == crashfs.OpWrite && strings.HasSuffix(o.Path, ".log") && batchFile == "":
+			batchFile = o.Path
+		case o.Kind == crashfs.OpRemove && strings.HasSuffix(o.Path, ".log"):
+			removed++
+		}
+	}
+	// heights durable before this batch and the files they were in
+	before := map[uint64]map[string]bool{}
+	for h, fs := range r.filesOf {
+		c := map[string]bool{}
+		for f := range fs {
+			c[f] = true
+		}
+		before[h] = c
+	}
+	if batchFile != "" {
+		for _, e := range m.pend {
+			if e.h > m.pruned {
+				if r.filesOf[e.h] == nil {
+					r.filesOf[e.h] = map[string]bool{}
+				}
+				r.filesOf[e.h][batchFile] = true
+			}
+		}
+	}
+	newPruned := m.pruned
+	if m.pendPrune > newPruned {
+		newPruned = m.pendPrune
+	}
+	surviving := 0
+	for h, fs := range r.filesOf {
+		if h > newPruned {
+			surviving++
+			if len(fs) > r.place.maxFilesOfLiveHeight {
+				r.place.maxFilesOfLiveHeight = len(fs)
+			}
+		}
+	}
+	if removed > 0 && w.step >= 0 {
+		r.place.removedLogs += removed
+		if surviving > 0 {
+			r.place.removedWithLive = true
+		}
+		for d, dfs := range before {
+			if d > newPruned || len(dfs) < 2 {
+				continue
+			}
+			for s, sfs := range before {
+				if s <= newPruned {
+					continue
+				}
+				for f := range sfs {
+					if dfs[f] {
+						r.place.removedSharedMulti = true
+					}
+				}
+			}
+		}
+	}
+	for h := range r.filesOf {
+		if h <= newPruned {
+			delete(r.filesOf, h)
+		}
+	}
+}
+
+// ---------- multi-file layouts ----------
+//
+// A layout base prepares, without faults, a live store whose live heights are spread over up to three log
+// files in a chosen way, and which has 255 prune records since the last cleanup, so that the first prune
+// record of the enumerated suffix triggers the watermark write, the rotation and the removal of obsolete
+// files. The store writes one log file per "segment": a segment ends at a close+reopen or at an in-session
+// cleanup (256 prune records; the cleanup rotates the writer). A layout is
+//   - for each alphabet height i (hoff+1..hoff+3) a subset mask[i] of the segments {1,2,3}: in segment s one
+//     entry of every height whose mask contains s is appended (ascending height) and the batch is flushed;
+//   - for each of the two segment boundaries its kind: close+reopen, or 256 flushed prune records of
+//     heights that hold no entries (in-session cleanup + rotation);
+//   - after the entries of segment 3: 255 flushed prune records (again of heights without entries).
+//
+// All of it is driven through the public API; the live view is checked against the model after every flush
+// of entries, after every reopen and after the last prune record of each block.
+const (
+	baseLayout0 baseKind = 1000
+	layoutTop            = 999 // alphabet heights on a layout base are 1000,1001,1002
+)
+
+type layout struct {
+	mask   [3]int  // mask[i] bit s-1: height hoff+1+i has a flushed entry in segment s
+	rotate [2]bool // boundary after segment 1 / 2: true = 256 prune records in-session, false = close+reopen
+}
+
+func (l layout) kind() baseKind {
+	c := l.mask[0] | l.mask[1]<<3 | l.mask[2]<<6
+	if l.rotate[0] {
+		c |= 1 << 9
+	}
+	if l.rotate[1] {
+		c |= 1 << 10
+	}
+	return baseLayout0 + baseKind(c)
+}
+
+func layoutOf(b baseKind) layout {
+	c := int(b - baseLayout0)
+	return layout{mask: [3]int{c & 7, c >> 3 & 7, c >> 6 & 7}, rotate: [2]bool{c>>9&1 == 1, c>>10&1 == 1}}
+}
+
+// maxSpan is the largest number of segments one height is spread over.
+func (l layout) maxSpan() int {
+	n := 0
+	for _, m := range l.mask {
+		if k := m&1 + m>>1&1 + m>>2&1; k > n {
+			n = k
+		}
+	}
+	return n
+}
+
+func (l layout) String() string {
+	var b strings.Builder
+	b.WriteString("layout(")
+	for i, m := range l.mask {
+		fmt.Fprintf(&b, "h%d in segments ", i+1)
+		if m == 0 {
+			b.WriteByte('-')
+		}
+		for s := 1; s <= 3; s++ {
+			if m>>(s-1)&1 == 1 {
+				fmt.Fprintf(&b, "%d", s)
+			}
+		}
+		b.WriteString("; ")
+	}
+	for i, rot := range l.rotate {
+		fmt.Fprintf(&b, "boundary %d/%d = %s", i+1, i+2, map[bool]string{false: "reopen", true: "256-prune-records cleanup"}[rot])
+		if i == 0 {
+			b.WriteString(", ")
+		}
+	}
+	b.WriteString("; then 255 prune records)")
+	return b.String()
+}
+
+// allLayouts enumerates every layout over the first `heights` alphabet heights (the others have no entries).
+func allLayouts(heights int) []baseKind {
+	var out []baseKind
+	for c := 0; c < 1<<(3*heights); c++ {
+		for b := 0; b < 4; b++ {
+			l := layout{mask: [3]int{c & 7, c >> 3 & 7, c >> 6 & 7}, rotate: [2]bool{b&1 == 1, b&2 == 2}}
+			out = append(out, l.kind())
+		}
+	}
+	return out
+}
+
+func (r *run) runLayout(l layout) {
+	next := uint64(1) // next prune height (heights without entries, far below the alphabet)
+	prunes := func(n int) {
+		for i := 0; i < n && !r.broken; i++ {
+			r.quiet = i < n-1
+			r.doPrune(-1, next)
+			next++
+			r.doFlush(-1)
+		}
+		r.quiet = false
+	}
+	for s := 1; s <= 3 && !r.broken; s++ {
+		any := false
+		for i, m := range l.mask {
+			if m>>(s-1)&1 == 1 {
+				r.doAppendPos(-1, 2000+10*s+i, r.hoff+1+uint64(i))
+				any = true
+			}
+		}
+		if any {
+			r.doFlush(-1)
+		}
+		switch {
+		case s == 3:
+			prunes(255)
+		case l.rotate[s-1]:
+			prunes(256)
+		default:
+			r.doClose(-1)
+			if !r.broken {
+				r.doOpen(-1)
+			}
+		}
+	}
+}
+
 // baseKind selects the live prefix that is run (not enumerated) before the enumerated history.
 type baseKind int
 
@@ -596,6 +838,7 @@ const (
 	baseNone     baseKind = 0
 	basePrune255 baseKind = 1 // 255 prune records since the last cleanup, three log files
 	baseFill0    baseKind = 2 // baseFill0+k: one log file filled to just below the first 32 KiB block boundary with single-entry batches of entry kind k
+	// baseLayout0+code (>= 1000): live heights spread over up to three log files + 255 prune records, see layout
 )
 
 func (b baseKind) String() string {
@@ -604,6 +847,8 @@ func (b baseKind) String() string {
 		return "none"
 	case b == basePrune255:
 		return "prune255"
+	case b >= baseLayout0:
+		return layoutOf(b).String()
 	default:
 		return fmt.Sprintf("blockfill-kind%d", int(b-baseFill0))
 	}
@@ -668,6 +913,9 @@ func (c *checker) execute(hist []sym, base baseKind, fault int, fmode crashfs.Fa
 	case base == basePrune255:
 		r.hoff = baseTopHeight
 		r.runBase()
+	case base >= baseLayout0:
+		r.hoff = layoutTop
+		r.runLayout(layoutOf(base))
 	case base >= baseFill0:
 		r.runFill(int(base - baseFill0))
 	}
